@@ -143,8 +143,10 @@ def handleQ (d : D) (e : QEv) : D :=
   | .ctl on isHost idx date =>
     -- monitor: what the spec table wants reported at this date (from the state before the failure)
     let effective := if isHost then d.s.hostOn idx else d.s.linkOn idx
+    -- (an actor that was owed a report by an earlier failure of this date and lives on the host that now fails is
+    --  killed instead: "or its actor is dying")
     let d := if on || ! effective then d else
-      { d with must := d.must ++ specMust d.s isHost idx date,
+      { d with must := (d.must.filter (fun m => !(isHost && (d.s.actors m.actor).host == idx))) ++ specMust d.s isHost idx date,
                hostOff := if isHost then (idx, date) :: d.hostOff else d.hostOff }
     let s := match on, isHost with
       | false, true => hostOff d.s idx
@@ -211,7 +213,7 @@ def handleQ (d : D) (e : QEv) : D :=
 /-- end of a scheduling round: handle the queued simcalls in order, then `handle_ended_actions` -/
 def flush (d : D) : D :=
   let d := d.q.foldl handleQ { d with q := [] }
-  if d.s.crashed then d else setS d (handleEnded (d.s.nActs + 1) d.s)
+  if d.s.crashed then d else setS d (handleEndedAll d.s)
 
 def applyFault (d : D) (on isHost : Bool) (idx : Nat) (date : String) : D :=
   handleQ d (.ctl on isHost idx date)
@@ -246,6 +248,13 @@ def parseHandle (t : String) : Option (Nat × Nat) :=   -- a<i>.<k>
     | _, _ => none
   | _ => none
 
+/-- finding `host-off-marks-peer-dying-without-exit`: the model says the actor was marked dying
+(`unregister_first_simcall`: "host is off => set_wannadie") but `ActorImpl::exit` never ran for it (no `Obs.kill`) -/
+def zombieNote (s : St) (a : Nat) : String :=
+  if (s.actors a).wannadie && ! (s.actors a).ended && ! s.obs.contains (.kill a) then
+    " [zombie: marked dying by unregister_first_simcall while its host was being turned off, ActorImpl::exit never ran]"
+  else ""
+
 /-- the clock moved: everything the spec wanted reported at the previous date must have been reported -/
 def onDate (d : D) (date : String) : D :=
   if date == d.lastDate then d else
@@ -258,7 +267,7 @@ def onDate (d : D) (date : String) : D :=
       -- only actors that were alive when the host went off (the model marks them)
       (d.s.actors a).wannadie && ! (d.s.actors a).ended)
     match missing with
-    | a :: _ => fail { d with lastDate := date } (.monfail s!"a{a} lives on a host that was turned off but did not terminate at that date")
+    | a :: _ => fail { d with lastDate := date } (.monfail (s!"a{a} lives on a host that was turned off but did not terminate at that date" ++ zombieNote d.s a))
     | [] => { d with lastDate := date, hostOff := [] }
 
 def removeFirst {α : Type} (l : List α) (p : α → Bool) : List α :=
@@ -408,7 +417,8 @@ def procLine (d : D) (toks : List String) : D :=
         if x.waiting.all (fun k => (d.s.acts k).state == .waiting) && ! x.waiting.isEmpty then none else some b
       | none => some b)
     match bad with
-    | b :: _ => fail d (.monfail s!"{b} is blocked for ever on an activity that is not an unmatched communication")
+    | b :: _ => fail d (.monfail (s!"{b} is blocked for ever on an activity that is not an unmatched communication" ++
+        (match parseHandle b with | some (a, _) => zombieNote d.s a | none => "")))
     | [] =>
       let modelBlocked := (List.range d.s.nActors).filter (fun a =>
         (d.s.actors a).blocked && ! (d.s.actors a).wannadie && ! (d.s.actors a).ended)
@@ -462,7 +472,7 @@ def procLines : List (List String) → D → D
         let d := { d with s := prot.foldl (fun s id => s.setAct id (fun x => { x with links := [] })) d.s }
         let d := procLine d l
         -- ... the failed activities are finished first ...
-        let d := if d.s.crashed then d else setS d (handleEnded (d.s.nActs + 1) d.s)
+        let d := if d.s.crashed then d else setS d (handleEndedAll d.s)
         -- ... then the completed ones
         let d := saved.foldl (fun d p =>
           setS d (complete (d.s.setAct p.1 (fun x => { x with links := p.2 })) p.1)) d
